@@ -125,7 +125,25 @@ def _owner_name(obj, name, info):
 def summarise_ctor(it, init, obj, label):
     """flow-insensitive summary of a constructor: constant fields kept, containers / calls become unknown handles"""
     seen = {}
-    for n in ast.walk(init.node):
+    # the constructor and every method of the class it reaches through self.<method>(...) calls
+    nodes, work, done = [], [init.node], set()
+    cls = obj.cls
+    while work:
+        fnode = work.pop()
+        if id(fnode) in done:
+            continue
+        done.add(id(fnode))
+        nodes.append(fnode)
+        for n in ast.walk(fnode):
+            if isinstance(n, ast.Call) and isinstance(n.func, ast.Attribute) and isinstance(n.func.value, ast.Name) and n.func.value.id == "self":
+                nm = n.func.attr
+                if nm.startswith("__") and not nm.endswith("__"):
+                    nm = "_" + cls.name.lstrip("_") + nm
+                c_, m_ = cls.lookup(nm)
+                m_ = getattr(m_, "f", m_)
+                if isinstance(m_, FuncV) and m_.node is not None:
+                    work.append(m_.node)
+    for n in (x for fnode in nodes for x in ast.walk(fnode)):
         if isinstance(n, ast.Assign):
             for t in n.targets:
                 if isinstance(t, ast.Attribute) and isinstance(t.value, ast.Name) and t.value.id == "self":
